@@ -291,3 +291,17 @@ pub proof fn lemma_ancestors_valid(f: &Fsm, s1: u32, s2: u32)
         }
     }
 }
+
+/// 0 ("no state") has no descendants
+pub proof fn lemma_not_desc_of_zero(f: &Fsm, s: u32)
+    requires
+        wf_tree(f),
+    ensures
+        !is_desc(f, s, 0),
+    decreases rk(f, s),
+{
+    if valid_id(f, s) && parent_of(f, s) != 0 {
+        lemma_rank(f, s);
+        lemma_not_desc_of_zero(f, parent_of(f, s));
+    }
+}
